@@ -330,6 +330,26 @@ fn body<T: El>(c: &Case) -> Result<bool, Fail> {
             ensure!(got == expect, "iter-items", "C-side iteration yielded {} items, source had {n}", got.len());
             let mut out = MaybeUninit::<T>::uninit();
             ensure!(unsafe { func(v.iter, &mut out) } != 0, "iter-end", "exhausted iterator returned 0");
+            // made in C, advanced in Rust: 0 means "an item was written", every other value "no item"
+            struct CState<T> {
+                items: std::vec::IntoIter<T>,
+                end_code: i32,
+            }
+            unsafe extern "C" fn c_next<T>(st: *mut u8, out: *mut MaybeUninit<T>) -> i32 {
+                let st = &mut *(st as *mut CState<T>);
+                match st.items.next() {
+                    Some(x) => {
+                        (*out).write(x);
+                        0
+                    }
+                    None => st.end_code,
+                }
+            }
+            let end_code = [1, 2, -1, i32::MIN, 0x7fff_0000][(val(c, 2) % 5) as usize];
+            let mut st = CState { items: expect.clone().into_iter(), end_code };
+            let made: CIterator<T> = unsafe { as_view(IterView::<T> { iter: &mut st as *mut CState<T> as *mut u8, func: Some(c_next::<T>) }) };
+            let got: Vec<T> = made.take(n + 3).collect();
+            ensure!(got == expect, "iter-foreign", "an iterator made from C fields (end signalled with {end_code}) yields {} items in Rust, its source had {n}", got.len());
             Ok(n > 0)
         }
         7 => {
